@@ -77,6 +77,7 @@ type Exec struct {
 	steps      int
 	evals      int64
 	timerFires int
+	earlyFires int // timer events taken while some thread was enabled
 	spins      int
 	status     Status
 	horizon    bool // the timer horizon was reached with timers still pending
@@ -100,6 +101,7 @@ type Result struct {
 	Leaked     []string // library threads still alive at quiescence (by spawn site)
 	Clock      time.Duration
 	TimerFires int
+	EarlyFires int // timer events that fired although a thread was runnable (a deviation)
 	Steps      int
 	Threads    int
 }
@@ -429,6 +431,9 @@ func (x *Exec) nextDeadline() (int64, bool) {
 //go:norace
 func (x *Exec) step(tr *trans) {
 	if tr.timer {
+		if tr.cost > 0 {
+			x.earlyFires++
+		}
 		x.fireTimer()
 		for i := 0; i < x.nthreads; i++ {
 			x.threads[i].yielded = false
@@ -575,7 +580,7 @@ func (x *Exec) stateKey() uint64 {
 
 // finish aborts whatever is still parked, joins every thread and builds the Result.
 func (x *Exec) finish() *Result {
-	res := &Result{Status: x.status, Horizon: x.horizon, Clock: time.Duration(x.clock), TimerFires: x.timerFires, Steps: x.steps, Threads: x.nthreads}
+	res := &Result{Status: x.status, Horizon: x.horizon, Clock: time.Duration(x.clock), TimerFires: x.timerFires, EarlyFires: x.earlyFires, Steps: x.steps, Threads: x.nthreads}
 	// describe before aborting
 	for i := 0; i < x.nthreadsNR(); i++ {
 		t := x.threads[i]
